@@ -130,7 +130,7 @@ var (
 
 	mu  sync.Mutex
 	cur struct {
-		succ map[int]bool
+		succ map[int]string // per client: outcome of its attempts in this round, '1' answered / '0' refused; the last one repeats
 		log  []probe
 	}
 )
@@ -191,9 +191,19 @@ func pathServer(j int, conn *net.UDPConn) {
 		}
 		cl := int(scn.TrafficClass>>2) - 1
 		mu.Lock()
+		nth := 0 // how many requests this client has sent before this one (= index of the attempt)
+		for _, p := range cur.log {
+			if p.client == cl {
+				nth++
+			}
+		}
 		cur.log = append(cur.log, probe{cl, j})
-		ok := cur.succ[cl]
+		pat := cur.succ[cl]
 		mu.Unlock()
+		ok := false
+		if len(pat) > 0 {
+			ok = pat[min(nth, len(pat)-1)] == '1'
+		}
 		if !ok {
 			conn.WriteToUDPAddrPort([]byte{0}, from)
 			conn.WriteToUDPAddrPort([]byte{0}, from)
@@ -422,7 +432,7 @@ func runRound(cs, succ []string, data []byte, paths []snet.Path, deadline time.D
 	ps := paths
 	clients := make([]*client.SCIONClient, len(cs))
 	filters := make([]*fakeFilter, len(cs))
-	sm := map[int]bool{}
+	sm := map[int]string{}
 	for i, t := range cs {
 		if len(t) < 4 {
 			return "bad-op", false
@@ -434,9 +444,24 @@ func runRound(cs, succ []string, data []byte, paths []snet.Path, deadline time.D
 		}
 		c := &client.SCIONClient{Log: discard, DSCP: uint8(i + 1), InterleavedMode: t[0] == '1'}
 		f := &fakeFilter{}
-		if succ[i] != "x" {
-			f.off = time.Duration(i64(succ[i]))
-			sm[i] = true
+		// succ[i]: "x" every attempt is refused; "<off>" every attempt is answered; "<off>:<pattern>"
+		// attempt k is answered iff pattern[k] == '1' (last character repeats)
+		val, pat, _ := strings.Cut(succ[i], ":")
+		switch {
+		case val == "x":
+			sm[i] = "0"
+		case pat == "":
+			sm[i] = "1"
+		default:
+			for _, ch := range pat {
+				if ch != '0' && ch != '1' {
+					return "bad-op", false
+				}
+			}
+			sm[i] = pat
+		}
+		if val != "x" {
+			f.off = time.Duration(i64(val))
 		}
 		c.Filter = f
 		ref := ""
@@ -881,6 +906,28 @@ func round(c *lib.Ctx, cs []clientSpec, ps []string, stream []byte, succ []strin
 	judge(c, []string{op}, c.Do(op), cs, ps, succ)
 }
 
+// anyAnswered: does a participant with this outcome token get at least one answered exchange?
+// (clients in InterleavedMode make three attempts per round, the others one)
+func anyAnswered(tok string, interleavedMode bool) bool {
+	val, pat, _ := strings.Cut(tok, ":")
+	if val == "x" {
+		return false
+	}
+	if pat == "" {
+		return true
+	}
+	n := 1
+	if interleavedMode {
+		n = 3
+	}
+	for k := 0; k < n; k++ {
+		if pat[min(k, len(pat)-1)] == '1' {
+			return true
+		}
+	}
+	return false
+}
+
 // judge evaluates the property predicate on the answer of one round (`ops` = the replay: the
 // round's op, preceded by the ops of its history for rounds on one Pather; `ps` = the
 // fingerprints the path source offers). It returns the client -> offered-position assignment.
@@ -978,8 +1025,9 @@ func judge(c *lib.Ctx, ops []string, ans string, cs []clientSpec, ps []string, s
 			continue
 		}
 		m := measurements.Measurement{}
-		if succ[i] != "x" {
-			m.Offset = time.Duration(i64(succ[i]))
+		if anyAnswered(succ[i], cs[i].mode) {
+			v, _, _ := strings.Cut(succ[i], ":")
+			m.Offset = time.Duration(i64(v))
 			nsucc++
 		}
 		ms = append(ms, m)
@@ -1230,6 +1278,9 @@ func genRounds(c *lib.Ctx) {
 				succ[k] = strconv.FormatInt(r.Pick64([]int64{0, 1, -1, 1 << 40, -(1 << 40)}), 10)
 			default:
 				succ[k] = strconv.FormatInt(r.Range(-1000000000, 1000000000), 10)
+			}
+			if succ[k] != "x" && r.Chance(35) { // some attempts of this participant are refused
+				succ[k] += ":" + []string{"10", "100", "01", "011", "010", "101", "001", "110", "000", "0"}[r.Intn(10)]
 			}
 		}
 		var s []byte
